@@ -61,7 +61,7 @@ def build(tier="quick", seed=0):
             w = it.call(st.g["RecordStreamWriter"], [fp], {})
             recs = []
             for kind in spec.replace("!", ""):
-                r = it.call(A, [], {"n": k, "s": SStr(sv[k % 6]), "ts": T1, "ts2": T2, "_generated": GEN}) if kind == "A" else it.call(B, [], {"n": k, "t": f"t{k}", "_generated": GEN})
+                r = it.call(A, [], {"n": k, "s": SStr(sv[k % 6]), "ts": (None if k == 2 else T1), "ts2": (None if k % 3 == 1 or k == 2 else T2), "_generated": GEN}) if kind == "A" else it.call(B, [], {"n": k, "t": f"t{k}", "_generated": GEN})
                 k += 1
                 it.call(it.getattr_(w, "write"), [r], {})
                 recs.append(r)
